@@ -229,7 +229,7 @@ func (g *valGen) gen(t *T, top bool) *val.Val {
 			var k *val.Val
 			switch t.Kids[0].K {
 			case "str":
-				k = val.Str([]string{"k1", "k2", "k3", "a", ""}[g.r.Intn(5)])
+				k = val.Str([]string{"k1", "k2", "k3", "a", "", "K1", "A", "k", "é", "É", "a, b", "k1 "}[g.r.Intn(12)])
 			case "num":
 				k = val.Num([]float64{0, 1, 2, 3, 0.5, 1e30}[g.r.Intn(6)])
 			default:
